@@ -47,6 +47,7 @@ THEOREMS = ["C12_deterministic", "C12_file_order_irrelevant", "C12_set_order_irr
             "C12_noclash_order_irrelevant", "C12_uses_sorted", "C12_uses_unsorted_refuted",
             "C12_graph_emission_sorted", "C12_child_edges_sorted", "C12_child_edges_unsorted_refuted",
             "C12_table_rows_sorted", "C12_table_rows_from_set_refuted", "C12_stale_output_irrelevant",
+            "C12_sources_ignore_output", "C12_rerun_stale_irrelevant", "C12_sources_unexcluded_refuted",
             "C12_merge_refuted"]
 CASE_T = "acase"
 DATE = re.compile(rb" on \d{4}-\d\d-\d\dT[0-9:.+-]+ ")
@@ -662,6 +663,115 @@ def findings(chk, rng):
                                             "first_difference": cl[1]}, True)
 
 
+# ----------------------------------------------------------------------------- output directory inside a source directory
+
+def nested_project(rng):
+    """src_dir: . with the output directory below it (the default ./doc, or -o out2); a static page directory that
+    holds a Fortran file (copied to <out>/page/), sources in the root and in a subdirectory"""
+    a, b = rng.sample(["alpha", "beta", "gamma", "delta", "kappa"], 2)
+    return {f"{a}.f90": f"module {a}\n  integer :: v_{a}\n    !! doc of v_{a}\nend module {a}\n",
+            f"lib/{b}.f90": f"module {b}\n  use {a}\ncontains\n  subroutine s_{b}()\n    !! does {b}\n  end subroutine s_{b}\n"
+                            f"end module {b}\n",
+            "pages/index.md": "---\ntitle: Notes\n---\n\nSome notes, see example.f90.\n",
+            "pages/example.f90": "program example\n  !! the example of the notes\nend program example\n"}
+
+
+def stale_nested(chk, rng):
+    """'regardless of what an earlier run left in the output directory', where it matters most: the output
+    directory lies INSIDE a source directory, so only its exclusion from the source search keeps the files an earlier
+    run left there (copied sources, page attachments) from being documented.  Every variant: output directory
+    absent / left by the same project / left by another project (with src/*.f90); trees must be byte-identical."""
+    files = nested_project(rng)
+    other = R.subprocess_run(P.other_project(rng), {"incl_src": "true"}, 1)[2]
+    base = {"src_dir": ".", "page_dir": "./pages", "search": "false"}
+    variants = [
+        ("incl_src false", dict(base, incl_src="false"), (), "doc"),
+        ("incl_src true", dict(base, incl_src="true"), (), "doc"),
+        ("-o out2", dict(base, incl_src="false"), ("-o", "out2"), "out2"),
+        ("--exclude_dir", dict(base, incl_src="true"), ("--exclude_dir", "./no_such_dir"), "doc"),
+    ]
+
+    def one(v):
+        name, opts, cli, out = v
+        res = []
+        with F.Work() as w:
+            pd = R.ProjectDir(w.root, "nested", files)
+            for stale in (None, "same", other, "same"):
+                res.append(pd.run(opts, 4, stale=stale, extra_args=cli, out=out)[:3])
+        return res
+    with ThreadPoolExecutor(max_workers=4) as ex:
+        results = list(ex.map(one, variants))
+    kinds = ["absent", "left by the same project", "left by another project (with src/*.f90)",
+             "left by the same project, second time"]
+    for (name, opts, cli, out), res in zip(variants, results):
+        rc0, log0, tree0 = res[0]
+        if rc0 != 0:
+            chk.violation("failing-input", {"what": f"FORD fails on the nested-output project ({name})",
+                                            "log": log0[-1500:], "options": opts, "cli": list(cli),
+                                            "files": files}, True)
+            continue
+        for kind, (rc, log, tree) in list(zip(kinds, res))[1:]:
+            chk.count(("nested", name, kind), sample={"variant": name, "output_directory": kind,
+                                                      "files_written": len(tree), "reference": len(tree0)})
+            cl = None if rc == rc0 else (None, ("exit code", f"{rc0} vs {rc}", [log[-300:]]))
+            cl = cl or R.classify(tree0, tree)
+            if cl is not None:
+                chk.disagreements += 1
+                chk.violation("failing-input",
+                              {"what": "the output depends on what an earlier run left in the output directory "
+                                       f"(output directory inside the source directory, {name}; directory {kind})",
+                               "run": "nested", "variant": name, "options": opts, "cli": list(cli), "out": out,
+                               "stale": kind, "first_difference": cl[1],
+                               "only_in_rerun": sorted(set(tree) - set(tree0))[:10], "files": files}, True)
+                break
+    chk.extra["nested_output_runs"] = sum(len(r) for r in results)
+    # the same premise at the level of find_all_files (Out/Project.v sources: the output directory is excluded
+    # by the settings themselves, whatever the options): what it returns must not depend on the output directory
+    import pathlib
+    import ford.fortran_project as fp
+    from ford.settings import ProjectSettings
+    scases, sinfo = [], []
+    for incl in (True, False):
+        with F.Work(files) as w:
+            def found():
+                st = ProjectSettings(src_dir=[w.root], output_dir=w.root / "doc", incl_src=incl, preprocess=False)
+                st.fpp_extensions = []
+                cwd = os.getcwd()
+                os.chdir(w.root)
+                try:
+                    with F.quiet():
+                        return sorted(os.path.relpath(p, w.root) for p in fp.find_all_files(st))
+                finally:
+                    os.chdir(cwd)
+            before = found()
+            for rel, text in (("doc/src/left.f90", "module zz_left\nend module zz_left\n"),
+                              ("doc/page/example.f90", "program example\nend program example\n")):
+                (w.root / rel).parent.mkdir(parents=True, exist_ok=True)
+                (w.root / rel).write_text(text)
+            after = found()
+            allf = sorted(os.path.relpath(p, w.root) for p in pathlib.Path(w.root).rglob("*.f90"))
+        comps = lambda rel: coq_list(coq_str(c) for c in rel.split("/"))  # noqa: E731
+        scases.append(f"({coq_list(map(comps, allf))}, [], [[{coq_str('doc')}]], {coq_list(map(comps, after))})")
+        sinfo.append((incl, allf, after))
+        chk.count(("nested-sources", incl), sample={"incl_src": incl, "sources": before, "with_stale_output": after})
+        if before != after:
+            chk.violation("failing-input",
+                          {"what": "find_all_files returns files of the output directory: the set of source files "
+                                   "depends on what an earlier run left there", "incl_src": incl,
+                           "sources_without_output_directory": before, "sources_with_stale_output_directory": after,
+                           "files": files}, True)
+    sres = chk.coq_judge(IMPORTS, "list (list str) * list str * list (list str) * list (list str)", "judge_sources",
+                         scases)
+    if sres is not None:
+        chk.traces += len(scases)
+        for idx, code in sorted(sres.items()):
+            incl, allf, after = sinfo[idx]
+            chk.violation("failing-input",
+                          {"what": "find_all_files differs from the model (files below the source directory that are "
+                                   "not below an excluded directory, the output directory being excluded)",
+                           "incl_src": incl, "fortran_files": allf, "find_all_files": after, "files": files}, True)
+
+
 # ----------------------------------------------------------------------------- the process pool
 
 PARALLEL = ("0", "2", "3", "8")
@@ -762,6 +872,7 @@ def run(chk):
     e2e(chk, rng)
     chk.extra["t_e2e_s"] = round(time.time() - t, 1)
     t = time.time()
+    stale_nested(chk, rng)
     pool(chk, rng)
     chk.extra["t_pool_s"] = round(time.time() - t, 1)
     t = time.time()
@@ -792,6 +903,16 @@ def replay(chk, rep):
         code = (res or {}).get(0, 0)
         bad = res is None or bool(problems) or bool(code & 1) or (bool(code & 2) and code >> 2 == 0)
         return 1 if bad else 0
+    if rep.get("run") == "nested":
+        other = R.subprocess_run(P.other_project(None), {"incl_src": "true"}, 1)[2]
+        with F.Work() as w:
+            pd = R.ProjectDir(w.root, "nested", files)
+            res = [pd.run(opts, 4, stale=s, extra_args=tuple(rep.get("cli") or ()), out=rep.get("out") or "doc")
+                   for s in (None, "same", other, "same")]
+        diffs = [R.classify(res[0][2], r[2]) for r in res[1:]]
+        print("exit codes:", [r[0] for r in res])
+        print("differences from the first run:", ["none" if d is None else d[1][:2] for d in diffs])
+        return 1 if any(d is not None for d in diffs) or len({r[0] for r in res}) > 1 else 0
     seeds = rep.get("seeds") or [1, 2]
     stale = rep.get("stale")
     if stale == "other":
